@@ -4,20 +4,29 @@
 // clusters exactly in proportion to the weights (enumerated random source),
 // request hash = Envoy/A42 combination of the configured hash-policy inputs only.
 //
+// Added for the seeded change C46-1: on one resolver (channel) the channel_id
+// request hash must be IDENTICAL across the config selectors built after
+// successive xDS updates, and differ only between resolvers.
+//
 // No repo code is replaced: the monitor plugs into the two package variables the
-// repo exposes for tests (xdsresource.RandInt64n and rinternal.NewWRR).
+// repo exposes for tests (xdsresource.RandInt64n and rinternal.NewWRR) and builds
+// the resolver through the exported hook internal.NewXDSResolverWithClientForTesting.
 package resolver
 
 import (
 	"context"
 	"fmt"
 	"math/rand"
+	"net/url"
 	"regexp"
 	"strconv"
 	"strings"
+	"sync"
 	"testing"
+	"time"
 
 	xxhash "github.com/cespare/xxhash/v2"
+	"google.golang.org/grpc/internal"
 	"google.golang.org/grpc/internal/grpcutil"
 	iresolver "google.golang.org/grpc/internal/resolver"
 	iringhash "google.golang.org/grpc/internal/ringhash"
@@ -25,12 +34,14 @@ import (
 	"google.golang.org/grpc/internal/wrr"
 	"google.golang.org/grpc/internal/xds/balancer/clustermanager"
 	"google.golang.org/grpc/internal/xds/bootstrap"
-	"google.golang.org/grpc/internal/xds/httpfilter"
+	gxdsclient "google.golang.org/grpc/internal/xds/clients/xdsclient"
 	"google.golang.org/grpc/internal/xds/matcher"
 	rinternal "google.golang.org/grpc/internal/xds/resolver/internal"
 	"google.golang.org/grpc/internal/xds/xdsclient"
 	"google.golang.org/grpc/internal/xds/xdsclient/xdsresource"
 	"google.golang.org/grpc/metadata"
+	"google.golang.org/grpc/resolver"
+	"google.golang.org/grpc/serviceconfig"
 )
 
 const c46KeyF5 = "fraction-draw-equal-to-fraction-matches"
@@ -267,6 +278,27 @@ func c46JudgeHash(r *vlib.Run, pols []c46Policy, channelID uint64, md map[string
 }
 
 // ---------------------------------------------------------------- building the real thing
+//
+// The resolver is created by the package's own builder (through the exported test
+// hook internal.NewXDSResolverWithClientForTesting) and fed through its exported
+// Update method, exactly as the dependency manager does after every xDS update.
+// No unexported field of the resolver or of the config selector is named here, so
+// the monitor keeps building when those are refactored; everything it needs to
+// know (e.g. the channel id) is learned from behaviour.
+
+// c46ClusterPrefix is the child-policy name prefix of the cluster manager LB config.
+const c46ClusterPrefix = "cluster:"
+
+// c46ProbePath: every pushed route list starts with a route for exactly this path
+// whose only hash policy is channel_id: its request hash IS the channel id
+// (rotl(0,1) XOR id), which is how the monitor learns the id of a config selector.
+const c46ProbePath = "/verif.Probe/ChannelID"
+
+func c46ProbeRoute() c46Route {
+	p := c46ProbePath
+	return c46Route{Path: &p, Action: xdsresource.RouteActionRoute,
+		Clusters: []xdsresource.WeightedCluster{{Name: "probe", Weight: 1}}, Policies: []c46Policy{{ChannelID: true}}}
+}
 
 type c46FakeXDSClient struct {
 	xdsclient.XDSClient
@@ -274,6 +306,108 @@ type c46FakeXDSClient struct {
 }
 
 func (c *c46FakeXDSClient) BootstrapConfig() *bootstrap.Config { return c.bc }
+
+// WatchResource: the management server never answers; configuration is pushed
+// through Update by the monitor.
+func (c *c46FakeXDSClient) WatchResource(string, string, gxdsclient.ResourceWatcher) func() {
+	return func() {}
+}
+
+// c46CC is the resolver.ClientConn the resolver reports to.
+type c46CC struct {
+	states chan resolver.State
+}
+
+func (cc *c46CC) UpdateState(s resolver.State) error {
+	cc.states <- s
+	return nil
+}
+func (cc *c46CC) ReportError(error)            {}
+func (cc *c46CC) NewAddress([]resolver.Address) {}
+func (cc *c46CC) ParseServiceConfig(string) *serviceconfig.ParseResult {
+	return &serviceconfig.ParseResult{}
+}
+
+// c46Channel is one resolver = one channel.
+type c46Channel struct {
+	res resolver.Resolver
+	upd interface {
+		Update(*xdsresource.XDSConfig)
+	}
+	cc *c46CC
+}
+
+func c46NewChannel(bc *bootstrap.Config, n int) (*c46Channel, error) {
+	mk, ok := internal.NewXDSResolverWithClientForTesting.(func(xdsclient.XDSClient) (resolver.Builder, error))
+	if !ok {
+		return nil, fmt.Errorf("internal.NewXDSResolverWithClientForTesting has type %T", internal.NewXDSResolverWithClientForTesting)
+	}
+	b, err := mk(&c46FakeXDSClient{bc: bc})
+	if err != nil {
+		return nil, err
+	}
+	cc := &c46CC{states: make(chan resolver.State, 16)}
+	res, err := b.Build(resolver.Target{URL: url.URL{Scheme: "xds", Path: "/c46-service-" + strconv.Itoa(n)}}, cc, resolver.BuildOptions{})
+	if err != nil {
+		return nil, err
+	}
+	upd, ok := res.(interface {
+		Update(*xdsresource.XDSConfig)
+	})
+	if !ok {
+		res.Close()
+		return nil, fmt.Errorf("resolver %T has no Update(*xdsresource.XDSConfig)", res)
+	}
+	return &c46Channel{res: res, upd: upd, cc: cc}, nil
+}
+
+var errC46Timeout = fmt.Errorf("resolver did not report a state within the watchdog")
+
+// push delivers a new aggregated xDS configuration (what the dependency manager
+// does after any LDS/RDS/CDS/EDS update) and returns the config selector the
+// resolver hands to the channel.  generation only varies the cluster/endpoint
+// part of the configuration.
+func (ch *c46Channel) push(specs []c46Route, generation int) (iresolver.ConfigSelector, error) {
+	clusters := map[string]*xdsresource.ClusterResult{}
+	for _, s := range specs {
+		for _, c := range s.Clusters {
+			clusters[c.Name] = &xdsresource.ClusterResult{Config: xdsresource.ClusterConfig{}}
+		}
+	}
+	clusters["generation-"+strconv.Itoa(generation)] = &xdsresource.ClusterResult{}
+	ch.upd.Update(&xdsresource.XDSConfig{
+		Listener:    &xdsresource.ListenerUpdate{APIListener: &xdsresource.HTTPConnectionManagerConfig{}},
+		RouteConfig: &xdsresource.RouteConfigUpdate{},
+		VirtualHost: &xdsresource.VirtualHost{Domains: []string{"*"}, Routes: c46ToRoutes(specs)},
+		Clusters:    clusters,
+	})
+	select {
+	case st := <-ch.cc.states:
+		cs := iresolver.GetConfigSelector(st)
+		if cs == nil {
+			return nil, fmt.Errorf("resolver state carries no config selector")
+		}
+		return cs, nil
+	case <-time.After(3 * time.Minute): // watchdog only: never a verdict
+		return nil, errC46Timeout
+	}
+}
+
+// learnID returns the request hash of the probe route = the channel id of cs.
+func c46LearnID(cs iresolver.ConfigSelector) (uint64, error) {
+	cfg, err := cs.SelectConfig(iresolver.RPCInfo{Context: context.Background(), Method: c46ProbePath})
+	if err != nil {
+		return 0, err
+	}
+	if cfg.OnCommitted != nil {
+		defer cfg.OnCommitted()
+	}
+	h, ok := iringhash.XDSRequestHash(cfg.Context)
+	if !ok {
+		return 0, fmt.Errorf("no request hash in the context of the probe route")
+	}
+	return h, nil
+}
 
 func c46ToRoutes(specs []c46Route) []*xdsresource.Route {
 	out := make([]*xdsresource.Route, len(specs))
@@ -309,28 +443,6 @@ func c46ToRoutes(specs []c46Route) []*xdsresource.Route {
 		out[i] = rt
 	}
 	return out
-}
-
-func c46NewSelector(t *testing.T, bc *bootstrap.Config, specs []c46Route, channelID uint64) (*configSelector, error) {
-	r := &xdsResolver{
-		xdsClient:      &c46FakeXDSClient{bc: bc},
-		activeClusters: map[string]*clusterInfo{},
-		activePlugins:  map[string]*clusterInfo{},
-		httpFilters:    map[clientFilterKey]httpfilter.ClientFilter{},
-		channelID:      channelID,
-	}
-	for _, s := range specs {
-		for _, c := range s.Clusters {
-			// pre-registered so that no dependency manager is needed
-			r.activeClusters[clusterPrefix+c.Name] = &clusterInfo{unsubscribe: func() {}}
-		}
-	}
-	r.xdsConfig = &xdsresource.XDSConfig{
-		Listener:    &xdsresource.ListenerUpdate{APIListener: &xdsresource.HTTPConnectionManagerConfig{}},
-		RouteConfig: &xdsresource.RouteConfigUpdate{},
-		VirtualHost: &xdsresource.VirtualHost{Domains: []string{"*"}, Routes: c46ToRoutes(specs)},
-	}
-	return r.newConfigSelector()
 }
 
 // ---------------------------------------------------------------- generators
@@ -427,6 +539,31 @@ type c46Case struct {
 
 // ---------------------------------------------------------------- the test
 
+func c46Descr(specs []c46Route) []string {
+	d := make([]string, len(specs))
+	for k := range specs {
+		d[k] = specs[k].String()
+	}
+	return d
+}
+
+// c46CheckWeights: what newConfigSelector handed to the weighted picker.
+func c46CheckWeights(r *vlib.Run, fam string, i int, ctl *c46Ctl, specs []c46Route, descr []string) {
+	if len(ctl.made) != len(specs) {
+		r.Violation("wrr-per-route", fam, i, descr, "the config selector was built with %d weighted pickers for %d routes", len(ctl.made), len(specs))
+		return
+	}
+	for k, w := range ctl.made {
+		ok := len(w.weights) == len(specs[k].Clusters)
+		for j := 0; ok && j < len(w.weights); j++ {
+			ok = w.weights[j] == int64(specs[k].Clusters[j].Weight)
+		}
+		if !ok {
+			r.Violation("cluster-weights-not-passed", fam, i, descr, "route %d: weighted picker received weights %v for clusters %v", k, w.weights, specs[k].Clusters)
+		}
+	}
+}
+
 func TestVerifC46Resolver(t *testing.T) {
 	r := vlib.Start(t, "C46")
 	bc, err := bootstrap.NewConfigFromContents([]byte(`{"xds_servers":[{"server_uri":"ipv4:///127.0.0.1:1","channel_creds":[{"type":"insecure"}]}],"node":{"id":"c46-node"}}`))
@@ -438,176 +575,308 @@ func TestVerifC46Resolver(t *testing.T) {
 	origRand, origWRR := xdsresource.RandInt64n, rinternal.NewWRR
 	defer func() { xdsresource.RandInt64n, rinternal.NewWRR = origRand, origWRR }()
 	ctl := &c46Ctl{}
+	var ctlMu sync.Mutex // pickers are created on the resolver's serializer goroutine
 	rinternal.NewWRR = func() wrr.WRR {
 		w := &c46WRR{ctl: ctl}
+		ctlMu.Lock()
 		ctl.made = append(ctl.made, w)
+		ctlMu.Unlock()
 		return w
 	}
+	resetMade := func() { ctlMu.Lock(); ctl.made = nil; ctlMu.Unlock() }
 	var fracDraw int64
 	xdsresource.RandInt64n = func(int64) int64 { return fracDraw }
+	chanN := 0
+	aborted := false
+	abort := func(fam string, i int, what string, err error) bool {
+		if err == nil {
+			return false
+		}
+		aborted = true
+		if err == errC46Timeout {
+			r.Inconclusive("%s: %v", what, err)
+		} else {
+			r.Violation("resolver-update-failed", fam, i, what, "%s on a valid configuration: %v", what, err)
+		}
+		return true
+	}
+	seenIDs := map[uint64]int{}
 
 	const famSel = "select"
-	n := r.N(4000, 80000)
-	for i := 0; i < n; i++ {
+	n := r.N(3000, 60000)
+	for i := 0; i < n && !aborted; i++ {
 		if !r.Want(famSel, i) {
 			continue
 		}
 		rng := r.Rand(famSel, i)
-		nClusters := 0
-		specs := make([]c46Route, 1+rng.Intn(5))
-		for k := range specs {
-			specs[k] = c46GenRoute(rng, &nClusters)
+		chanN++
+		ch, err := c46NewChannel(bc, chanN)
+		if abort(famSel, i, "building the xDS resolver", err) {
+			break
 		}
-		channelID := rng.Uint64()
-		ctl.made = nil
-		cs, err := c46NewSelector(t, bc, specs, channelID)
-		if err != nil {
-			r.Violation("config-selector-construction-failed", famSel, i, fmt.Sprint(specs), "newConfigSelector failed on a valid route list: %v", err)
-			continue
-		}
-		descr := make([]string, len(specs))
-		for k := range specs {
-			descr[k] = specs[k].String()
-		}
-		// what newConfigSelector handed to the weighted picker
-		if len(ctl.made) != len(specs) {
-			r.Violation("wrr-per-route", famSel, i, descr, "newConfigSelector created %d weighted pickers for %d routes", len(ctl.made), len(specs))
-		} else {
-			for k, w := range ctl.made {
-				ok := len(w.weights) == len(specs[k].Clusters)
-				for j := 0; ok && j < len(w.weights); j++ {
-					ok = w.weights[j] == int64(specs[k].Clusters[j].Weight)
+		var firstID uint64
+		var prev []c46Route
+		updates := 2 + rng.Intn(2)
+		for u := 0; u < updates; u++ {
+			// update kinds: new route configuration | same routes, new weights | same routes (cluster/endpoint-only update)
+			nClusters := 0
+			var specs []c46Route
+			kind := "rds"
+			switch {
+			case u == 0 || rng.Intn(3) == 0:
+				specs = []c46Route{c46ProbeRoute()}
+				for k := 1 + rng.Intn(5); k > 0; k-- {
+					specs = append(specs, c46GenRoute(rng, &nClusters))
 				}
-				if !ok {
-					r.Violation("cluster-weights-not-passed", famSel, i, descr, "route %d: weighted picker received weights %v for clusters %v", k, w.weights, specs[k].Clusters)
+			case rng.Intn(2) == 0:
+				kind = "weights"
+				specs = append([]c46Route(nil), prev...)
+				for k := 1; k < len(specs); k++ {
+					cl := append([]xdsresource.WeightedCluster(nil), specs[k].Clusters...)
+					for j := range cl {
+						cl[j].Weight = uint32(1 + rng.Intn(9))
+					}
+					specs[k].Clusters = cl
 				}
+			default:
+				kind = "eds-only"
+				specs = prev
 			}
-		}
-
-		rpcs := 12
-		for j := 0; j < rpcs; j++ {
+			prev = specs
+			descr := c46Descr(specs)
+			resetMade()
+			cs, err := ch.push(specs, u)
+			if abort(famSel, i, "pushing an xDS configuration ("+kind+")", err) {
+				break
+			}
+			ctlMu.Lock()
+			c46CheckWeights(r, famSel, i, ctl, specs, descr)
+			ctlMu.Unlock()
+			id, err := c46LearnID(cs)
+			if err != nil {
+				r.Violation("channel-id-probe-failed", famSel, i, descr, "RPC to the probe route (channel_id hash policy) failed: %v", err)
+				break
+			}
+			r.Eval(1)
+			if u == 0 {
+				firstID = id
+				if other, dup := seenIDs[id]; dup {
+					r.Violation("channel-id-hash-identical-across-channels", famSel, i, map[string]any{"id": id, "other_case": other},
+						"two different resolvers (channels) produce the same channel_id request hash %d", id)
+				}
+				seenIDs[id] = i
+			} else {
+				r.Count("channel_id_compared_across_updates_"+kind, 1)
+				if id != firstID {
+					r.Violation("channel-id-hash-changes-across-config-updates", famSel, i, map[string]any{"first": firstID, "now": id, "update": u, "kind": kind, "routes": descr},
+						"channel_id request hash was %d with the first config selector and is %d after xDS update #%d (%s) on the SAME resolver: the hash must depend only on the configured inputs and the channel", firstID, id, u, kind)
+				}
+				r.Nontrivial("chanid/stable-after-" + kind)
+			}
+			rpcs := 12
+			if u > 0 {
+				rpcs = 4
+			}
+			for j := 0; j < rpcs; j++ {
+				method := c46Methods[rng.Intn(len(c46Methods))]
+				md := c46GenMD(rng)
+				extra := map[string][]string{}
+				if rng.Intn(3) == 0 {
+					extra["content-type"] = []string{"application/grpc"}
+				}
+				fracDraw = rng.Int63n(1000000)
+				if rng.Intn(2) == 0 {
+					fracDraw = []int64{0, 1, 249999, 250000, 250001, 499999, 500000, 500001, 999998, 999999}[rng.Intn(10)]
+				}
+				ctl.draw = rng.Uint64()
+				c46OneRPC(r, famSel, i, cs, specs, descr, id, method, md, extra, fracDraw, ctl, nil)
+			}
+			if u > 0 {
+				continue
+			}
+			// exact proportions: play every value of the random source for one RPC
 			method := c46Methods[rng.Intn(len(c46Methods))]
 			md := c46GenMD(rng)
-			extra := map[string][]string{}
-			if rng.Intn(3) == 0 {
-				extra["content-type"] = []string{"application/grpc"}
-			}
-			fracDraw = rng.Int63n(1000000)
-			if rng.Intn(2) == 0 {
-				fracDraw = []int64{0, 1, 249999, 250000, 250001, 499999, 500000, 500001, 999998, 999999}[rng.Intn(10)]
-			}
-			ctl.draw = rng.Uint64()
-			c46OneRPC(r, famSel, i, cs, specs, descr, channelID, method, md, extra, fracDraw, ctl, nil)
-		}
-
-		// exact proportions: play every value of the random source for one RPC
-		method := c46Methods[rng.Intn(len(c46Methods))]
-		md := c46GenMD(rng)
-		fracDraw = 300000 // not equal to any generated fraction: the F5 boundary is judged above, not here
-		if k := c46RefFirst(specs, method, md, fracDraw, true); k >= 0 && specs[k].Action == xdsresource.RouteActionRoute {
-			var total uint64
-			for _, c := range specs[k].Clusters {
-				total += uint64(c.Weight)
-			}
-			if total <= 4096 {
-				counts := map[string]int64{}
-				for d := uint64(0); d < total; d++ {
-					ctl.draw = d
-					c46OneRPC(r, famSel, i, cs, specs, descr, channelID, method, md, nil, fracDraw, ctl, counts)
-				}
+			fracDraw = 300000 // not equal to any generated fraction: the F5 boundary is judged above, not here
+			if k := c46RefFirst(specs, method, md, fracDraw, true); k >= 0 && specs[k].Action == xdsresource.RouteActionRoute {
+				var total uint64
 				for _, c := range specs[k].Clusters {
-					if counts[clusterPrefix+c.Name] != int64(c.Weight) {
-						r.Violation("cluster-proportion-not-exact", famSel, i, map[string]any{"routes": descr, "counts": counts},
-							"route %d: over all %d draws cluster %s was chosen %d times, weight %d (all: %v)", k, total, c.Name, counts[clusterPrefix+c.Name], c.Weight, counts)
-						break
+					total += uint64(c.Weight)
+				}
+				if total <= 4096 {
+					counts := map[string]int64{}
+					for d := uint64(0); d < total; d++ {
+						ctl.draw = d
+						c46OneRPC(r, famSel, i, cs, specs, descr, id, method, md, nil, fracDraw, ctl, counts)
 					}
+					for _, c := range specs[k].Clusters {
+						if counts[c46ClusterPrefix+c.Name] != int64(c.Weight) {
+							r.Violation("cluster-proportion-not-exact", famSel, i, map[string]any{"routes": descr, "counts": counts},
+								"route %d: over all %d draws cluster %s was chosen %d times, weight %d (all: %v)", k, total, c.Name, counts[c46ClusterPrefix+c.Name], c.Weight, counts)
+							break
+						}
+					}
+					r.Count("wrr_draws_enumerated", int64(total))
+					r.Count("routes_with_enumerated_cluster_choice", 1)
+					eq := "uneq"
+					if specs[k].Clusters[0].Weight == specs[k].Clusters[len(specs[k].Clusters)-1].Weight {
+						eq = "eq-ends"
+					}
+					r.Nontrivial(fmt.Sprintf("enum/clusters%d/%s", len(specs[k].Clusters), eq))
 				}
-				r.Count("wrr_draws_enumerated", int64(total))
-				r.Count("routes_with_enumerated_cluster_choice", 1)
-				eq := "uneq"
-				if specs[k].Clusters[0].Weight == specs[k].Clusters[len(specs[k].Clusters)-1].Weight {
-					eq = "eq-ends"
-				}
-				r.Nontrivial(fmt.Sprintf("enum/clusters%d/%s", len(specs[k].Clusters), eq))
 			}
 		}
-		cs.stop()
+		ch.res.Close()
 	}
 
-	// ---- hash: depends only on the configured inputs (metamorphic) + reference value
+	// ---- hash: depends only on the configured inputs (metamorphic) + reference value;
+	// every batch of 8 policy lists is one more xDS update on a long-lived channel.
 	const famHash = "hash"
+	const batch = 8
 	n = r.N(30000, 600000)
-	for i := 0; i < n; i++ {
-		if !r.Want(famHash, i) {
+	var ch *c46Channel
+	var chanID uint64
+	pushes := 0
+	for i := 0; i < n && !aborted; i += batch {
+		wantAny := false
+		for k := 0; k < batch; k++ {
+			wantAny = wantAny || r.Want(famHash, i+k)
+		}
+		if !wantAny {
 			continue
 		}
-		rng := r.Rand(famHash, i)
-		nc := 0
-		rt := c46GenRoute(rng, &nc)
-		for len(rt.Policies) == 0 {
-			rt = c46GenRoute(rng, &nc)
+		if ch == nil || pushes%500 == 0 {
+			if ch != nil {
+				ch.res.Close()
+			}
+			chanN++
+			var err error
+			ch, err = c46NewChannel(bc, chanN)
+			if abort(famHash, i, "building the xDS resolver", err) {
+				break
+			}
+			chanID = 0
 		}
-		channelID := rng.Uint64()
-		cs := &configSelector{channelID: channelID}
-		pols := c46ToRoutes([]c46Route{rt})[0].HashPolicies
-		md := c46GenMD(rng)
-		ctx := metadata.NewOutgoingContext(context.Background(), metadata.MD(c46Copy(md)))
-		got := cs.generateHash(iresolver.RPCInfo{Context: ctx, Method: "/s/m"}, pols)
-		r.Eval(1)
-		ok, generated, want := c46JudgeHash(r, rt.Policies, channelID, md, got)
-		if !generated {
-			r.Count("hash_no_policy_applied_random_unjudged", 1)
-			r.Nontrivial("hash/none-applied")
+		specs := []c46Route{c46ProbeRoute()}
+		rngs := make([]*rand.Rand, batch)
+		for k := 0; k < batch; k++ {
+			rngs[k] = r.Rand(famHash, i+k)
+			nc := 0
+			rt := c46GenRoute(rngs[k], &nc)
+			for len(rt.Policies) == 0 {
+				rt = c46GenRoute(rngs[k], &nc)
+			}
+			pfx := "/h" + strconv.Itoa(k) + "/"
+			specs = append(specs, c46Route{Prefix: &pfx, Action: xdsresource.RouteActionRoute,
+				Clusters: []xdsresource.WeightedCluster{{Name: "hc" + strconv.Itoa(k), Weight: 1}}, Policies: rt.Policies})
+		}
+		cs, err := ch.push(specs, pushes)
+		pushes++
+		if abort(famHash, i, "pushing an xDS configuration", err) {
+			break
+		}
+		id, err := c46LearnID(cs)
+		if err != nil {
+			r.Violation("channel-id-probe-failed", famHash, i, c46Descr(specs), "RPC to the probe route (channel_id hash policy) failed: %v", err)
 			continue
 		}
-		if !ok {
-			r.Violation("request-hash-mismatch", famHash, i, map[string]any{"policies": fmt.Sprintf("%+v", rt.Policies), "md": md, "channel_id": channelID, "got": got, "want": want},
-				"generateHash(policies=%+v, channelID=%d, md=%v) = %d, reference (rotl1-xor of xxhash64 of the joined/rewritten header values) = %d", rt.Policies, channelID, md, got, want)
-		}
-		// perturb everything that is NOT a configured input: other headers, method
-		used := map[string]bool{}
-		for _, p := range rt.Policies {
-			used[p.Header] = true
-		}
-		md2 := c46Copy(md)
-		for _, hn := range c46HdrNames {
-			if !used[hn] {
-				md2[hn] = []string{"perturbed-" + strconv.Itoa(rng.Intn(1000))}
+		if chanID == 0 {
+			chanID = id
+		} else {
+			r.Count("channel_id_compared_across_updates_rds", 1)
+			if id != chanID {
+				r.Violation("channel-id-hash-changes-across-config-updates", famHash, i, map[string]any{"first": chanID, "now": id, "updates_on_this_channel": pushes},
+					"channel_id request hash was %d and is %d after a further xDS update on the SAME resolver", chanID, id)
+				chanID = id // report once per change, keep judging the rest against the selector's own id
 			}
 		}
-		md2["unrelated"] = []string{"zzz"}
-		ctx2 := metadata.NewOutgoingContext(context.Background(), metadata.MD(md2))
-		if got2 := cs.generateHash(iresolver.RPCInfo{Context: ctx2, Method: "/other/" + strconv.Itoa(rng.Intn(100))}, pols); got2 != got {
-			r.Violation("request-hash-depends-on-unconfigured-input", famHash, i, map[string]any{"policies": fmt.Sprintf("%+v", rt.Policies), "md": md, "md2": md2},
-				"hash changed from %d to %d after changing only headers/method that no hash policy names (policies %+v, md %v -> %v)", got, got2, rt.Policies, md, md2)
-		}
-		kinds := ""
-		for _, p := range rt.Policies {
-			switch {
-			case p.ChannelID:
-				kinds += "C"
-			case strings.HasSuffix(p.Header, "-bin"):
-				kinds += "b"
-			case len(md[p.Header]) == 0:
-				kinds += "a" // absent
-			default:
-				kinds += "h" + strconv.Itoa(p.ReKind)
+		for k := 0; k < batch; k++ {
+			if !r.Want(famHash, i+k) {
+				continue
 			}
-			if p.Terminal {
-				kinds += "!"
+			rng := rngs[k]
+			pols := specs[1+k].Policies
+			md := c46GenMD(rng)
+			hashOf := func(method string, md map[string][]string) (uint64, bool) {
+				cfg, err := cs.SelectConfig(iresolver.RPCInfo{Context: metadata.NewOutgoingContext(context.Background(), metadata.MD(c46Copy(md))), Method: method})
+				if err != nil {
+					r.Violation("route-not-selected", famHash, i+k, specs[1+k].String(), "SelectConfig(%s) failed: %v", method, err)
+					return 0, false
+				}
+				if cfg.OnCommitted != nil {
+					defer cfg.OnCommitted()
+				}
+				h, ok := iringhash.XDSRequestHash(cfg.Context)
+				if !ok {
+					r.Violation("request-hash-missing", famHash, i+k, specs[1+k].String(), "SelectConfig(%s) set no request hash", method)
+				}
+				return h, ok
 			}
+			got, ok := hashOf("/h"+strconv.Itoa(k)+"/m", md)
+			if !ok {
+				continue
+			}
+			r.Eval(1)
+			okh, generated, want := c46JudgeHash(r, pols, id, md, got)
+			if !generated {
+				r.Count("hash_no_policy_applied_random_unjudged", 1)
+				r.Nontrivial("hash/none-applied")
+				continue
+			}
+			if !okh {
+				r.Violation("request-hash-mismatch", famHash, i+k, map[string]any{"policies": fmt.Sprintf("%+v", pols), "md": md, "channel_id": id, "got": got, "want": want},
+					"request hash for policies=%+v, channel id %d, md=%v is %d, reference (rotl1-xor of xxhash64 of the joined/rewritten header values) = %d", pols, id, md, got, want)
+			}
+			// perturb everything that is NOT a configured input: other headers, method
+			used := map[string]bool{}
+			for _, p := range pols {
+				used[p.Header] = true
+			}
+			md2 := c46Copy(md)
+			for _, hn := range c46HdrNames {
+				if !used[hn] {
+					md2[hn] = []string{"perturbed-" + strconv.Itoa(rng.Intn(1000))}
+				}
+			}
+			md2["unrelated"] = []string{"zzz"}
+			if got2, ok := hashOf("/h"+strconv.Itoa(k)+"/other"+strconv.Itoa(rng.Intn(100)), md2); ok && got2 != got {
+				r.Violation("request-hash-depends-on-unconfigured-input", famHash, i+k, map[string]any{"policies": fmt.Sprintf("%+v", pols), "md": md, "md2": md2},
+					"hash changed from %d to %d after changing only headers/method that no hash policy names (policies %+v, md %v -> %v)", got, got2, pols, md, md2)
+			}
+			kinds := ""
+			for _, p := range pols {
+				switch {
+				case p.ChannelID:
+					kinds += "C"
+				case strings.HasSuffix(p.Header, "-bin"):
+					kinds += "b"
+				case len(md[p.Header]) == 0:
+					kinds += "a" // absent
+				default:
+					kinds += "h" + strconv.Itoa(p.ReKind)
+				}
+				if p.Terminal {
+					kinds += "!"
+				}
+			}
+			r.Nontrivial("hash/" + kinds)
 		}
-		r.Nontrivial("hash/" + kinds)
 	}
+	if ch != nil {
+		ch.res.Close()
+	}
+	r.Count("resolvers_built", int64(chanN))
 
 	r.Finish(vlib.Spec{
 		Level: "exploration",
-		Rule: "select: PRNG route lists (1-5 routes: prefix/path, 0-2 header matchers, optional fraction, 1-4 weighted clusters, 0-3 hash policies, occasional non-forwarding action) -> real newConfigSelector; " +
-			"12 PRNG RPCs each with scripted fraction draw (incl. f-1,f,f+1) and scripted weighted-choice draw -> SelectConfig; then ALL draws of the weighted choice for one RPC (total weight <= 4096) counted per cluster; " +
-			"hash: PRNG policy lists (header with/without regex rewrite, -bin, channel id, terminal) x PRNG metadata -> generateHash vs reference, then unrelated headers and the method perturbed; " +
-			"distinct = (matched route index, #routes, error class) | enumerated (#clusters, weight shape) | hash policy-kind string",
+		Rule: "select: one real xDS resolver (channel) per case, built by the package's builder and fed through Update like the dependency manager does; 2-3 successive xDS updates per channel (new route configuration | same routes with new cluster weights | cluster/endpoint-only update); " +
+			"route lists = probe route (channel_id hash policy, used to learn the channel id from behaviour) + 1-5 PRNG routes (prefix/path, 0-2 header matchers, optional fraction, 1-4 weighted clusters, 0-3 hash policies, occasional non-forwarding action); " +
+			"after every update: channel_id hash identical to the first selector's, weights handed to the picker, 12 (4) PRNG RPCs with scripted fraction draw (incl. f-1,f,f+1) and scripted weighted-choice draw; first selector: ALL draws of the weighted choice for one RPC (total weight <= 4096) counted per cluster; channel ids of different resolvers must differ; " +
+			"hash: PRNG policy lists (header with/without regex rewrite, -bin, channel id, terminal) x PRNG metadata, 8 per xDS update on a long-lived channel (500 updates per channel), request hash through SelectConfig vs reference, then unrelated headers and the method perturbed; " +
+			"distinct = (matched route index, #routes, error class) | enumerated (#clusters, weight shape) | channel-id stability per update kind | hash policy-kind string",
 		Assumptions: []string{
 			"the weighted picker is replaced through the repo's own test seam rinternal.NewWRR by the monitor's textbook picker: this part judges the weights handed over and the use of the pick; internal/wrr itself is judged by the wb/internal_wrr step and by C38",
+			"the xDS client is a stub whose watches never fire; aggregated configurations are delivered through the resolver's exported Update method (the dependency manager's delivery path), the resulting config selector is taken from the resolver.State handed to the ClientConn",
 			"hash policies and metadata keys do not overlap with the transport's extra metadata (precedence between the two is not pinned by the statement)",
 			"xxhash64 (github.com/cespare/xxhash) is trusted; regex rewrites are literals or [0-9]+ with literal substitutions, evaluated in the reference without package regexp",
 		},
@@ -629,11 +898,11 @@ func c46Predict(specs []c46Route, method string, all map[string][]string, fracDr
 	if k < 0 || specs[k].Action != xdsresource.RouteActionRoute {
 		return k, "error"
 	}
-	return k, clusterPrefix + c46RefCluster(specs[k].Clusters, wrrDraw)
+	return k, c46ClusterPrefix + c46RefCluster(specs[k].Clusters, wrrDraw)
 }
 
 // c46OneRPC runs SelectConfig once and judges route, cluster and hash.
-func c46OneRPC(r *vlib.Run, fam string, i int, cs *configSelector, specs []c46Route, descr []string, channelID uint64,
+func c46OneRPC(r *vlib.Run, fam string, i int, cs iresolver.ConfigSelector, specs []c46Route, descr []string, channelID uint64,
 	method string, md, extra map[string][]string, fracDraw int64, ctl *c46Ctl, counts map[string]int64) {
 	ctx := metadata.NewOutgoingContext(context.Background(), metadata.MD(c46Copy(md)))
 	all := c46Copy(md)
@@ -672,7 +941,7 @@ func c46OneRPC(r *vlib.Run, fam string, i int, cs *configSelector, specs []c46Ro
 			key = "routed-without-matching-route"
 		default:
 			for _, cl := range specs[want].Clusters {
-				if clusterPrefix+cl.Name == got {
+				if c46ClusterPrefix+cl.Name == got {
 					key = "wrong-cluster-within-route"
 				}
 			}
